@@ -25,7 +25,10 @@ PROP = {
                   'written from the statement after every operation. Exploration, not proof: geometries are small '
                   '(<= 8x8 cells, <= 100x50 text cells) and arguments are aimed at the grid edges and the 32-bit wrap.',
     'level_note': 'A stray access surfaces as an index panic of the bounds-checked framebuffer slice (the driver only '
-                  'reaches memory through that slice); the guard pages are a second net.',
+                  'reaches memory through that slice); the guard pages are a second net. Every driver call runs on its '
+                  'own goroutine; a call that burns more than 2.5 s of CPU time (runaway loop over rows that are not in the '
+                  'grid) is reported unshrunk and ends the shard. While finding F-C19c is listed as open, grids without '
+                  'cells are constructed around (counted under excluded_by_construction).',
     'assumptions': ['palette entries are installed directly in the console palette before anything is drawn '
                     '(SetPaletteColor\'s colour replacement pass over the framebuffer is not part of C19)',
                     'the fourth byte of a 32 bpp pixel inside a painted cell is not asserted',
